@@ -145,11 +145,7 @@ func solveAll(obls []*Obligation, timeout time.Duration) {
 			defer wg.Done()
 			sem <- struct{}{}
 			defer func() { <-sem }()
-			facts := append(append([]*Term{}, extra...), o.Facts...)
-			facts = append(facts, globalFactsFor(append(append([]*Term{}, o.Facts...), o.Goal))...)
-			if !o.Cover {
-				facts = append(facts, heapAxiomsFor(append(append([]*Term{}, o.Facts...), o.Goal))...)
-			}
+			facts := queryFacts(o, extra)
 			var vals []*Term
 			for _, in := range o.Inputs {
 				vals = append(vals, in.T)
@@ -189,6 +185,15 @@ func solveAll(obls []*Obligation, timeout time.Duration) {
 	wg.Wait()
 }
 
+func queryFacts(o *Obligation, extra []*Term) []*Term {
+	facts := append(append([]*Term{}, extra...), o.Facts...)
+	facts = append(facts, globalFactsFor(append(append([]*Term{}, o.Facts...), o.Goal))...)
+	if !o.Cover {
+		facts = append(facts, heapAxiomsFor(append(append([]*Term{}, o.Facts...), o.Goal))...)
+	}
+	return facts
+}
+
 func printObls(obls []*Obligation, all bool, dump string) {
 	var re *regexp.Regexp
 	if dump != "" {
@@ -199,7 +204,7 @@ func printObls(obls []*Obligation, all bool, dump string) {
 			fmt.Printf("  %-10s %-70s %s/%s %.2fs  %s\n", o.Status, o.Name, o.Res.Solver, o.Res.Mode, o.Res.Time, o.Pos)
 		}
 		if re != nil && re.MatchString(o.Name) {
-			facts := append(strConstFacts(), o.Facts...)
+			facts := queryFacts(o, strConstFacts())
 			for _, m := range []Mode{ModeInt, ModeBV, ModeReal} {
 				s, err := buildScript(m, facts, o.Goal, nil, false)
 				if err != nil {
